@@ -361,7 +361,7 @@ pub fn run(ctx: &Ctx) -> Report {
     ];
     let tokens: [Option<&str>; 4] = [None, Some("AQoDYXdzEPT//////////wEXAMPLE+/=="), Some("tok en~*"), Some("")];
     let methods = ["GET", "POST", "PUT", "DELETE", "HEAD", "PATCH"];
-    let total_d = bodies.len() as u64 * ctypes.len() as u64 * 3 * 2 * tokens.len() as u64 * methods.len() as u64 * 2;
+    let total_d = bodies.len() as u64 * ctypes.len() as u64 * 4 * 2 * tokens.len() as u64 * methods.len() as u64 * 2;
     let base_d = base;
     let st_d = par_sweep(total_d, |i, st| {
         let mut x = i;
@@ -373,8 +373,8 @@ pub fn run(ctx: &Ctx) -> Report {
         x /= tokens.len() as u64;
         let carrier = if x % 2 == 0 { Carrier::Header } else { Carrier::Query };
         x /= 2;
-        let opt = x % 3; // 0 default, 1 S3, 2 fold
-        x /= 3;
+        let opt = x % 4; // 0 default, 1 S3, 2 fold, 3 S3 + fold
+        x /= 4;
         let ct = ctypes[(x % ctypes.len() as u64) as usize];
         x /= ctypes.len() as u64;
         let (_bname, body, form) = &bodies[x as usize];
@@ -393,7 +393,7 @@ pub fn run(ctx: &Ctx) -> Report {
             plan.url_params = vec![(b"Param1".to_vec(), b"u".to_vec()), (b"z".to_vec(), b"".to_vec())];
         }
         let is_form_ct = matches!(ct, Some(c) if c.starts_with("application/x-www-form-urlencoded"));
-        let fold = opt == 2;
+        let fold = opt >= 2;
         if fold && is_form_ct {
             match form {
                 Some(f) => plan.body_params = Some(f.clone()),
@@ -409,7 +409,7 @@ pub fn run(ctx: &Ctx) -> Report {
                 }
             }
         }
-        expect_accept(base_d + i, &plan, cfg_for(now, opt == 1, fold), st, "D");
+        expect_accept(base_d + i, &plan, cfg_for(now, opt == 1 || opt == 3, fold), st, "D");
         st.sample(i, total_d, || json!({"sweep": "D-body", "method": method, "content_type": ct, "option": opt, "token": token, "body_len": body.len()}));
     });
     st = st.merge(st_d);
@@ -449,14 +449,14 @@ pub fn run(ctx: &Ctx) -> Report {
     base += total_e;
 
     // ---- F. rich requests: everything at once
-    let total_f: u64 = 2 * 3 * 3 * 6 * 2 * 5;
+    let total_f: u64 = 2 * 4 * 3 * 6 * 2 * 5;
     let base_f = base;
     let st_f = par_sweep(total_f, |i, st| {
         let mut x = i;
         let carrier = if x % 2 == 0 { Carrier::Header } else { Carrier::Query };
         x /= 2;
-        let opt = x % 3;
-        x /= 3;
+        let opt = x % 4;
+        x /= 4;
         let tok = [None, Some("tok+/="), Some("t")][(x % 3) as usize];
         x /= 3;
         let order = orders[(x % 6) as usize];
@@ -502,7 +502,7 @@ pub fn run(ctx: &Ctx) -> Report {
         if tok.is_some() && carrier == Carrier::Header {
             plan.signed.push("x-amz-security-token".into());
         }
-        let fold = opt == 2;
+        let fold = opt >= 2;
         if form {
             plan.headers.push(("Content-Type".into(), b"application/x-www-form-urlencoded; charset=utf-8".to_vec()));
             plan.signed.push("content-type".into());
@@ -514,7 +514,7 @@ pub fn run(ctx: &Ctx) -> Report {
             plan.body = b"{\"k\": \"v\"}".to_vec();
         }
         plan.layout = AuthLayout { order, sep: ",".into(), lead: " ".into() };
-        expect_accept(base_f + i, &plan, cfg_for(now, opt == 1, fold), st, "F");
+        expect_accept(base_f + i, &plan, cfg_for(now, opt == 1 || opt == 3, fold), st, "F");
         st.sample(i, total_f, || json!({"sweep": "F-rich", "uri": format!("{}?{}", plan.wire_path.clone().unwrap(), plan.wire_query.clone().unwrap())}));
     });
     st = st.merge(st_f);
@@ -581,7 +581,7 @@ pub fn run(ctx: &Ctx) -> Report {
     Report {
         stats: st,
         rule: format!(
-            "requests signed by the independent reference signer from decoded data, then spelled on the wire: (A) every path of <= {} segments over {} segment values x trailing slash x {} spellings per segment x carrier x {{standard,S3}}; (B) every list of <= {} parameters over {} names x {} values, full product of {} spellings per element for <= 2 parameters and one element at a time above, x carrier; (C) 10 header sets x 6 Authorization parameter orders x 4 separators x 2 leads x 3 name cases x X-Amz-Date/Date x extras signed or not; (D) 6 bodies x 5 content types x {{default,S3,fold}} x carrier x 4 tokens (incl. the empty one) x 6 methods x URL parameters; (E) 9 clock offsets in [-15min,+15min] incl. +-1ns from the bounds x 4 server instants x 6 date renderings x carrier; (F) 1080 rich combinations; (G) scale: 21-300 parameters over 1/3/16 names, 30 signed headers, one header with 30 values, 4 kB header and 9 kB query values with a 300 kB body, 60 path segments, a folded form of 120 parameters — each 8 times through fresh maps, both carriers. Every second case is preceded, on the same thread, by one of 7 refused requests (bad escapes half-way through a query key / value / path / form body, wrong signature, expired) so that acceptance is also checked from non-initial states. Oracle: accepted (the provider bookkeeping is C03/C14's subject and is not judged here). states = distinct reference canonical requests; non-trivial = distinct (wire request, options, clock)",
+            "requests signed by the independent reference signer from decoded data, then spelled on the wire: (A) every path of <= {} segments over {} segment values x trailing slash x {} spellings per segment x carrier x {{standard,S3}}; (B) every list of <= {} parameters over {} names x {} values, full product of {} spellings per element for <= 2 parameters and one element at a time above, x carrier; (C) 10 header sets x 6 Authorization parameter orders x 4 separators x 2 leads x 3 name cases x X-Amz-Date/Date x extras signed or not; (D) 6 bodies x 5 content types x {{default, S3, fold, S3+fold}} x carrier x 4 tokens (incl. the empty one) x 6 methods x URL parameters; (E) 9 clock offsets in [-15min,+15min] incl. +-1ns from the bounds x 4 server instants x 6 date renderings x carrier; (F) 1440 rich combinations; (G) scale: 21-300 parameters over 1/3/16 names, 30 signed headers, one header with 30 values, 4 kB header and 9 kB query values with a 300 kB body, 60 path segments, a folded form of 120 parameters — each 8 times through fresh maps, both carriers. Every second case is preceded, on the same thread, by one of 7 refused requests (bad escapes half-way through a query key / value / path / form body, wrong signature, expired) so that acceptance is also checked from non-initial states. Oracle: accepted (the provider bookkeeping is C03/C14's subject and is not judged here). states = distinct reference canonical requests; non-trivial = distinct (wire request, options, clock)",
             nseg, SEGS.len(), NSPELL, nq, QNAMES.len(), QVALUES.len(), NSPELL
         ),
         bounds: json!({"path_segments": nseg, "query_params": nq, "cases_enumerated": base}),
